@@ -20,6 +20,32 @@ func verifLogPath() string {
 	return filepath.Join(d, "querylog.jsonl")
 }
 
+// verifLoggedRecords parses the file written so far.
+func verifLoggedRecords(path string) (recs []verifRec) {
+	b, err := os.ReadFile(path)
+	if err != nil {
+		return nil
+	}
+	for _, ln := range bytes.Split(bytes.TrimSuffix(b, []byte("\n")), []byte("\n")) {
+		var v struct {
+			IP      *string `json:"ip"`
+			Profile string  `json:"b"`
+			Device  string  `json:"i"`
+			FQDN    string  `json:"n"`
+			QType   uint16  `json:"q"`
+		}
+		if json.Unmarshal(ln, &v) != nil {
+			continue
+		}
+		r := verifRec{profile: v.Profile, device: v.Device, fqdn: v.FQDN, qtype: v.QType}
+		if v.IP != nil {
+			r.hasIP, r.ip = true, *v.IP
+		}
+		recs = append(recs, r)
+	}
+	return recs
+}
+
 func verifLogLines(path string) (lines int, clean bool) {
 	defer os.RemoveAll(verifTmpDir)
 	b, err := os.ReadFile(path)
